@@ -56,7 +56,7 @@ The tree after "repopulate" command may contain polytomies.
 		var identicalgroups [][]string
 		var setgroups bool
 
-		setgroups = cmd.Flags().Changed("id-groups")
+		setgroups = groupfile != "none"
 
 		if !setgroups {
 			err = fmt.Errorf("File with groups of identical tips must be provided")
